@@ -1131,6 +1131,21 @@ pub fn run(args: &Args) {
                 }
             }
         }
+        // a further roots file (relative to the verification directory): the subtree below every record in it
+        if let Some(name) = args.get("roots-file") {
+            let path = format!("{}/{}", std::env::var("VERIF_ROOT").unwrap_or_else(|_| ".".to_string()), name);
+            for t in read_lines(&path) {
+                if t.starts_with('#') || t.trim().is_empty() {
+                    continue;
+                }
+                if guard(|| Board::from_fen(&t, true)).and_then(|r| r.ok()).is_none() {
+                    panic!("roots file {}: record not accepted by the library: {}", path, t);
+                }
+                if guard(|| d.subtree(&t, false)).is_none() {
+                    d.out.emit("aborted", "\"where\":\"subtree\"");
+                }
+            }
+        }
         if let Some(path) = args.get("sfen-file") {
             for t in read_lines(path) {
                 if guard(|| d.generated(&t)).is_none() {
